@@ -12,6 +12,7 @@ Definition dispatch (id : Z) (s : list Z) : list Z :=
   else if id =? 1905 then run_P (chk_agg false) s
   else if id =? 1906 then run_P chk_fusion s
   else if id =? 1907 then run_P chk_merge s
+  else if id =? 1908 then run_P chk_ranks s
   else if id =? 1801 then run_P chk_dist s
   else if id =? 1802 then run_P chk_batch s
   else if id =? 1803 then run_P chk_preprocess s
@@ -29,6 +30,7 @@ Definition dispatch (id : Z) (s : list Z) : list Z :=
   else if id =? 500 then run_P chk_hybridhist s
   else if id =? 800 then run_P chk_storehist s
   else if id =? 1700 then run_P chk_lockhist s
+  else if id =? 1701 then run_P chk_close_order s
   else if id =? 1200 then run_P chk_hnswhist s
   else if id =? 2001 then run_P chk_kmeans s
   else if id =? 2002 then run_P chk_quant s
